@@ -100,7 +100,7 @@ func classifyMapLoops(p *core.Program) []mapLoop {
 						if i < len(s.Rhs) {
 							if call, ok := ast.Unparen(s.Rhs[i]).(*ast.CallExpr); ok {
 								if id, ok := call.Fun.(*ast.Ident); ok && id.Name == "append" && usesIter(call) {
-									if v := core.RootVar(info, l); v != nil && !(rs.Pos() <= v.Pos() && v.Pos() <= rs.End()) {
+									if v := core.RootVar(info, l); v != nil && !declaredWithin(info, rs, v) {
 										if !sortedLater(info, fd, v, rs) {
 											dep("appends entries to " + types.ExprString(l) + " in iteration order and the slice is not sorted afterwards")
 										}
@@ -110,7 +110,7 @@ func classifyMapLoops(p *core.Program) []mapLoop {
 						}
 						// plain assignment of an iteration value to an outer variable (last one wins)
 						if id, ok := ast.Unparen(l).(*ast.Ident); ok && i < len(s.Rhs) && usesIter(s.Rhs[i]) && s.Tok == token.ASSIGN {
-							if v := core.VarOf(info, id); v != nil && !(rs.Pos() <= v.Pos() && v.Pos() <= rs.End()) {
+							if v := core.VarOf(info, id); v != nil && !declaredWithin(info, rs, v) {
 								if b, ok := v.Type().Underlying().(*types.Basic); ok && b.Kind() == types.Bool {
 									continue
 								}
@@ -169,4 +169,13 @@ func sortedLater(info *types.Info, fd *core.FuncDecl, v *types.Var, after ast.No
 
 func mapLoopKey(p *core.Program, ml mapLoop, idx int) string {
 	return fmt.Sprintf("%s#range-map%d:%s", ml.FD.Name(), idx, types.ExprString(ml.Stmt.X))
+}
+
+
+// declaredWithin: the variable is declared inside node n (by the declaring
+// identifier's own position, which on a normalised declaration differs from
+// the object's recorded position).
+func declaredWithin(info *types.Info, n ast.Node, v *types.Var) bool {
+	p := core.DefPosIn(info, n, v)
+	return n.Pos() <= p && p <= n.End()
 }
